@@ -105,6 +105,15 @@ func H_C12_hist(fam, ct, fr, seq int64) {
 		}
 		vAssert("C12.ok", e.Execute(c, f, &sol))
 		vSameRegion("C12.reverse-add-order", subj, clip, sol, fresh)
+	case 9: // more paths added after an execution (the clip set arrives late)
+		e.AddPaths(subj, Subject, false)
+		first := make(Paths64, 0)
+		e.Execute(c, f, &first)
+		if clip != nil {
+			e.AddPaths(clip, Clip, false)
+		}
+		vAssert("C12.ok", e.Execute(c, f, &sol))
+		vSamePaths("C12.add-after-execute", sol, fresh)
 	case 8: // tree execution after a paths execution equals a fresh tree execution
 		add()
 		first := make(Paths64, 0)
@@ -148,4 +157,17 @@ func H_C12_D(ct, fr int64) {
 	vAssert("C12.D.ok", e.Execute(ClipType(ct), FillRule(fr), &sol))
 	vAssert("C12.D.prefilled-solution.count", len(sol) == len(fresh))
 	vCover("C12.D.done")
+}
+
+// H_C18_inflate: the offsetting entry points on concrete input with options,
+// for the shared-state monitor (offset.go takes sqrt/trig of its input, so the
+// input is concrete; the monitor still sees every Store on the path).
+func H_C18_inflate(join int64) {
+	sq := Paths64{{{0, 0}, {100, 0}, {100, 100}, {0, 100}}}
+	vFreeze(sq, "paths")
+	a := InflatePaths64(sq, 10, JoinType(join), Polygon, WithMitterLimit(3), WithArcTolerance(0.25))
+	b := InflatePaths64(sq, -10, JoinType(join), Polygon)
+	c := InflatePathsD(PathsD{{{0, 0}, {10, 0}, {10, 10}, {0, 10}}}, 1.5, JoinType(join), Polygon, WithPrecision(1))
+	vCover("C18.inflate.done")
+	vAssert("C18.inflate.nonempty", len(a) > 0 && len(b) > 0 && len(c) > 0)
 }
